@@ -137,7 +137,11 @@ F = [
   {"C08": [{"op": "rem", "ctx": ctx(1, 1, 0, "down"), "x": dec(9, 2), "y": INF, "cx": "+odd", "cy": "+Inf"}]}),
  ("D33", "Exp raises its working precision enough for arguments just above a multiple of 23",
   "Exp reported Overflow for arguments a hair above a multiple of 23 (the working precision was derived from |x| rounded to a float64): Exp(3611.0000000000000000001) P=41 Emax=100000 returned Infinity",
-  {"C12": [ar("exp", ctx(41, 100000, -100000, "down"), dec("36110000000000000000001", -19)), ar("exp", ctx(41, 100000, -100000, "down"), dec("98900000000000004", -14))]}),
+  {"C12": [ar("exp", ctx(41, 100000, -100000, "down"), dec("36110000000000000000001", -19)), ar("exp", ctx(41, 100000, -100000, "down"), dec("98900000000000004", -14)),
+           ar("exp", ctx(5, 1000, -1000, "half_even"), dec("11500000000000000000001", -20))]}),
+ ("D35", "Ln uses its power series up to |x-1| = 0.5",
+  "Ln was more than one ulp off in round-to-nearest modes just outside its power-series range (cancellation against ln 10 costs more than the two guard digits): Ln(1.10099) at Precision 4 half_up returned 0.09622 for 0.0962098",
+  {"C12": [ar("ln", ctx(4, 100000, -100000, "half_up"), dec(110099, -5))]}),
  ("D34", "Cbrt reduces the decimal exponent before the binary range reduction",
   "Cbrt failed with 'did not converge' for operands with large exponents at low precision (accumulated rounding of tens of thousands of multiplications by 8): Cbrt(9E-50000) at Precision 1",
   {"C11": [ar("cbrt", ctx(1, 1, -100000, "down"), dec(9, -50000)), ar("cbrt", ctx(1, 1, -100000, "down"), dec(729, -50002))]}),
